@@ -201,6 +201,35 @@ namespace sim
                     }
                     line = "UBSan " + k.substr(0, 90);
                 }
+                if (line.find("ThreadSanitizer") != std::string::npos)
+                {
+                    // name the racing site: the first frame of the first stack
+                    size_t f = err.find("\n    #0 ", p);
+                    if (f != std::string::npos)
+                    {
+                        size_t b = f + 8, e2 = err.find_first_of("( \n", b);
+                        std::string fn = err.substr(b, e2 == std::string::npos ? std::string::npos : e2 - b);
+                        // skip interceptor / operator frames: prefer the first frame that names ompl
+                        size_t q = f;
+                        for (int tries = 0; tries < 6 && fn.find("ompl") == std::string::npos; tries++)
+                        {
+                            q = err.find("\n    #", q + 1);
+                            if (q == std::string::npos)
+                                break;
+                            size_t sp = err.find(' ', q + 6);
+                            if (sp == std::string::npos)
+                                break;
+                            size_t e3 = err.find_first_of("( \n", sp + 1);
+                            std::string cand = err.substr(sp + 1, e3 == std::string::npos ? std::string::npos : e3 - sp - 1);
+                            if (cand.find("ompl") != std::string::npos)
+                                fn = cand;
+                        }
+                        std::string clean;
+                        for (char c : fn)
+                            clean += (isalnum((unsigned char)c) || c == ':' || c == '_' || c == '~') ? c : '_';
+                        line += " site=" + clean.substr(0, 90);
+                    }
+                }
                 for (auto &c : line)
                     if (c == ' ')
                         c = '_';
